@@ -120,6 +120,10 @@ def run(tier, seed):
     impl = C.run_harness(binary, [harness_line(c, i) for i, c in enumerate(cases)], timeout=900)
     model = C.coq_eval_cases(PRELUDE, [coq_case(c) for c in cases], show="lines_of_chcases", shard=40)
     bad = [i for i in range(len(cases)) if project(impl[i]) != project(model[i])]
+    # thousands of values on a 256 KiB stack: lending, make_mut and the final release must all be iterative
+    nbig = 5000 if tier == "quick" else 50000
+    big = C.run_harness(binary, [f"case big BIG {nbig} 64"], timeout=900, jobs=1)[0]
+    big_ok = big == [f"big sum={nbig * (nbig - 1) // 2} during={nbig} end=0"]
     def results(o):
         return [l for l in o if not (l.startswith("t") and " TryInsert " in l)]
     res_bad = [i for i in bad if results(impl[i]) != results(model[i])]
@@ -145,9 +149,20 @@ def run(tier, seed):
         "evaluations": len(cases), "distinct_nontrivial": nt, "rule": RULE,
         "samples": [harness_line(cases[0], "sample")[:400], harness_line(cases[-1], "sample")[:400]], "distribution": dict(dist),
     }
+    cov["big_chain_on_small_stack"] = big
     if stress is not None:
         cov["real_thread_stress"] = stress
     stress_failed = stress is not None and any(l.startswith("stress:FAIL") for l in stress)
+    if not big_ok and not bad:
+        payload = {"property": "C13", "seed": seed, "theorem_or_correspondence": "C13_pushes_keep_earlier / C13_drop_releases_all on a long chain: "
+                   f"{nbig} values lent and released - on a thread with a 64 KiB stack",
+                   "case": {"kind": "big", "line": f"case big BIG {nbig} 64"},
+                   "expected": f"big sum={nbig * (nbig - 1) // 2} during={nbig} end=0", "observed_on_implementation": big}
+        path = C.write_replay("C13", seed, payload)
+        cov["discharged"] -= 1
+        C.write_evidence("C13", tier, seed, cov, time.time() - t0, 1)
+        C.violation("C13", path)
+        return 1
     if bad or not unsafe_ok or stress_failed:
         if res_bad:
             i = min(res_bad, key=lambda k: len(harness_line(cases[k], 0)))
@@ -186,6 +201,12 @@ def replay(path):
     if case is None:
         print("replay file names an obligation:", payload.get("theorem_or_correspondence")); return 1
     binary = C.build_harness("chain")
+    if case.get("kind") == "big":
+        out = C.run_harness(binary, [case["line"]], timeout=900, jobs=1)[0]
+        print(out)
+        if out != [payload["expected"]]:
+            C.violation("C13", path); return 1
+        print("as expected"); return 0
     if case.get("kind") == "stress":
         out = C.run_harness(binary, [case["line"]], timeout=900)[0]
         print(out)
